@@ -180,6 +180,19 @@ func c20Failing(m *kmip.RequestMessage, raw []byte, e *c20Encoders) string {
 			out += enc + "=ok;"
 		}()
 	}
+	// a document abandoned before its first leaf is written: nested structures are open, nothing else has happened yet
+	early := ttlv.Value{Tag: 0x420078, Value: ttlv.Struct{{Tag: 0x420077, Value: ttlv.Struct{{Tag: 0x42004A, Value: -time.Second}}}}}
+	for _, enc := range []string{"xml", "json", "text", "binary"} {
+		func() {
+			defer func() {
+				if recover() != nil {
+					out += "early-" + enc + "=panic;"
+				}
+			}()
+			e.encode(enc, early)
+			out += "early-" + enc + "=ok;"
+		}()
+	}
 	// an object whose Go type has no tag cannot be encoded: not the first time, and not the second time either
 	// (whatever an earlier message with a proper object left behind)
 	getResp := func(obj kmip.Object) *kmip.ResponseMessage {
